@@ -101,6 +101,80 @@ func (w *World) Twin(t *Replica, tx *types.Transaction, force bool) (*TwinResult
 	return res, nil
 }
 
+// TwinAfter is Twin with a PREFIX: block B0 carries the prefix transactions only, block B1 the
+// prefix followed by tx (the block order is the pool's: ascending account nonce - the caller
+// gives tx a larger nonce than every prefix tx, e.g. same signer and consecutive nonces). The
+// prefix is part of both blocks, so every difference between the two post-states is still the
+// effect of tx alone - executed on the state the prefix left behind in the SAME block. With an
+// empty prefix this is Twin.
+func (w *World) TwinAfter(t *Replica, prefix []*types.Transaction, tx *types.Transaction, force bool) (*TwinResult, error) {
+	if len(prefix) == 0 {
+		return w.Twin(t, tx, force)
+	}
+	res := &TwinResult{}
+	t.enter()
+	if !t.CanPropose() {
+		return nil, fmt.Errorf("twin owner cannot propose at this head")
+	}
+	clear := func() {
+		for _, old := range t.TxPool.VerifAll() {
+			t.TxPool.Remove(old)
+		}
+	}
+	clear()
+	for _, p := range prefix {
+		if err := t.TxPool.AddExternalTxs(validation.InboundTx, p); err != nil {
+			clear()
+			res.Note = "pool refused a prefix tx: " + ErrClass(err)
+			return res, nil
+		}
+	}
+	res.B0 = t.Chain.ProposeBlock(nil).Block
+	if len(res.B0.Body.Transactions) != len(prefix) {
+		clear()
+		res.Note = "prefix not included as a whole"
+		return res, nil
+	}
+	err := t.TxPool.AddExternalTxs(validation.InboundTx, tx)
+	if err == nil {
+		res.Admitted = true
+	} else if force {
+		if e2 := t.TxPool.VerifForcePut(tx); e2 != nil {
+			clear()
+			res.Note = "pool refused: " + ErrClass(err) + "; force-put refused: " + ErrClass(e2)
+			return res, nil
+		}
+		res.Forced = true
+		res.Note = "pool refused: " + ErrClass(err)
+	} else {
+		clear()
+		res.Note = "pool refused: " + ErrClass(err)
+		return res, nil
+	}
+	res.B1 = t.Chain.ProposeBlock(nil).Block
+	clear()
+	n := len(res.B1.Body.Transactions)
+	if n != len(prefix)+1 || res.B1.Body.Transactions[n-1].Hash() != tx.Hash() {
+		return res, nil // tx left out (or not last): nothing to compare
+	}
+	for i, p := range prefix {
+		if res.B0.Body.Transactions[i].Hash() != p.Hash() || res.B1.Body.Transactions[i].Hash() != p.Hash() {
+			return res, nil
+		}
+	}
+	res.Included = true
+	var e0, e1 error
+	res.Post0, _, e0 = t.Chain.VerifValidateOnCheck(res.B0)
+	res.Post1, res.Receipts, e1 = t.Chain.VerifValidateOnCheck(res.B1)
+	if e0 != nil {
+		return nil, fmt.Errorf("twin: B0 (prefix only) does not validate: %v", e0)
+	}
+	if e1 != nil {
+		return res, fmt.Errorf("twin: B1 built by ProposeBlock does not validate: %v", e1)
+	}
+	return res, nil
+}
+
 // touched lists the addresses a tx names (sender, recipient).
 func touched(tx *types.Transaction) []common.Address {
 	l := []common.Address{senderOf(tx)}
